@@ -252,7 +252,7 @@ pub fn u16_to_le_pair(x: u16) -> (r: (u8, u8))
 pub assume_specification[ <u8 as core::convert::From<bool>>::from ](b: bool) -> (r: u8)
     ensures r == (if b { 1u8 } else { 0u8 });
 
-//@trusted T7 bitfield-struct derive on KnownKeyFlags (u16) / KnownFeatures (u8): the value is its bits; from_bits / into_bits are the identity on them; default() is all-zero
+//@trusted T7 bitfields derive on KnownKeyFlags (u16): the value is its bits, from_bits / into_bits are the identity on all 16 bits (no padding fields since /repo 2cc6731; CHECKED on the compiled macro expansion by Kani unit K07c - before that fix this assumption was false: padding bits were zeroed) and default() is all-zero; KnownFeatures (u8) is only built with its tuple constructor and read through `.0` by the real code (its from_bits zeroes the padding bits and is not modelled)
 #[derive(Clone, Copy)]
 pub struct KnownKeyFlags(pub u16);
 impl KnownKeyFlags {
